@@ -199,6 +199,9 @@ func (s *KVSnapshot) SetSnapshotTS(ts uint64) {
 	s.mu.Unlock()
 	// And also remove the minCommitTS pushed information.
 	s.resolvedLocks = util.TSSet{}
+	// A lock that may be read through at the old timestamp (committed at or before it) may have been committed
+	// after the new one: whether it is readable has to be decided again.
+	s.committedLocks = util.TSSet{}
 }
 
 // IsInternal returns if the KvSnapshot is used by internal executions.
